@@ -192,6 +192,16 @@ def convPaddingCheck (padding : Val) : Except PyErr Unit :=
   | .bytes _ => .error .valueError
   | _ => .ok ()
 
+/-- a numpy uint64 scalar (mixed with Python / int64 integers numpy promotes to float64) -/
+def isU64Scalar : Val → Bool
+  | .npscalar dt _ => dt.kind == .uint && dt.size == 8
+  | _ => false
+
+def hasU64Entry : Val → Bool
+  | .tuple xs | .list xs => xs.any isU64Scalar
+  | .arr dt _ _ => dt.kind == .uint && dt.size == 8
+  | _ => false
+
 /-- Conv2d: `if isinstance(x, int): x = (x, x)` -/
 def pairInt (v : Val) : Val := if isPyInt v then .tuple [v, v] else v
 
@@ -241,7 +251,9 @@ def postInit (kind : String) (f : List (String × Val)) : Except PyErr Node := d
       | _ =>
         let wsh ← getShape (← get "weight")
         if wsh.length < 2 then throw .indexError
-        -- np.array([C_in, input_shape]) needs a scalar input_shape
+        -- np.array([C_in, input_shape]) needs a scalar input_shape; a uint64 scalar next to the Python int C_in makes
+        -- numpy promote the array to float64 (declined)
+        if isU64Scalar inputShape then throw unmodelled
         let n ← match Val.asInt? inputShape with
           | some n => pure n
           | Option.none => throw unmodelled
@@ -265,6 +277,7 @@ def postInit (kind : String) (f : List (String × Val)) : Except PyErr Node := d
         let spatial ← match Val.asInt? inputShape with
           | some _ => throw .typeError      -- `*input_shape` on an int
           | Option.none => shapeInts inputShape
+        if hasU64Entry inputShape then throw unmodelled   -- [C_in, *uint64s] is promoted to float64
         if wsh.length < 3 then throw .indexError
         let kernel := Val.tuple ((wsh.drop 2).map fun k => Val.int (Int.ofNat k))
         let out ← calculateConvOutput inputShape padding dilation kernel stride
